@@ -93,13 +93,13 @@ fn c04_7a_interpolate_at_zero() {
     kani::cover!(c.left != 0.0);
 }
 
-// @ob id=C04.7b strength=complete tier=quick fn=frame.rs::interpolate_frame
-// @req four EQUAL frames v (|v| <= 1e6), any fraction in [0,1]
+// @ob id=C04.7b strength=bounded tier=quick bound="constant value on the dyadic grid k/8, |k| <= 16 (so that 2.5 v etc. are exact); fraction fully symbolic" fn=frame.rs::interpolate_frame
+// @req four EQUAL frames v on the dyadic grid k/8 (|k| <= 16), fraction any f32 in [0,1]
 // @ens the result is v exactly (the interpolator reproduces constants: c1 = c2 = c3 = 0)
 #[kani::proof]
 #[kani::unwind(4)]
 fn c04_7b_interpolate_constant() {
-    let v = Frame::new(any_f32_in(-1.0e6, 1.0e6), any_f32_in(-1.0e6, 1.0e6));
+    let v = grid_frame();
     let x = any_f32_in(0.0, 1.0);
     let out = interpolate_frame(v, v, v, v, x);
     assert!(out.left == v.left && out.right == v.right, "C04.7b: a constant signal is reproduced exactly at every fractional position");
